@@ -481,9 +481,9 @@ class Analysis(object):
         self.result = None
 
 
-def analyze(q, live, an=None):
+def analyze(q, ev, an=None):
     """Bottom-up: normalise children first (T), rebuild the node over them, normalise that one node with the library and
-    compare the two under the model. Returns the Analysis with .result = T(q)."""
+    compare input and output of that single step under the evaluator. Returns the Analysis with .result = T(q)."""
     from whoosh import query
     top = an is None
     an = an or Analysis()
@@ -491,45 +491,68 @@ def analyze(q, live, an=None):
     if kids is None:
         node = q
     else:
-        node = rebuild(q, [analyze(c, live, an) for c in kids])
+        node = rebuild(q, [analyze(c, ev, an) for c in kids])
     res = node.normalize()
     an.steps += 1
-    before, after = try_sem(node, live), try_sem(res, live)
-    if before is None or after is None:
-        an.undecided += 1
-    elif before != after:
-        found = None
-        if isinstance(node, query.And):
-            for subset, variant in listed_and_variants(node):
-                if try_sem(variant, live) == after:
-                    found = subset
-                    break
-        elif isinstance(node, query.Not) and is_null(node.query) and is_null(res):
-            found = ("not-null",)
-        if found:
-            an.known.append((found, repr(node), repr(res)))
-        else:
-            an.unknown.append((type(node).__name__, repr(node), repr(res), sorted(before, key=int), sorted(after, key=int)))
+    if not same_struct(node, res):
+        before, after = ev.sem(node), ev.sem(res)
+        if before is None or after is None:
+            an.undecided += 1
+        elif before != after:
+            found = None
+            if isinstance(node, query.And):
+                for subset, variant in listed_and_variants(node):
+                    if ev.sem(variant) == after:
+                        found = subset
+                        break
+            elif isinstance(node, query.Not) and is_null(node.query) and is_null(res):
+                found = ("not-null",)
+            if found:
+                an.known.append((found, repr(node), repr(res)))
+            else:
+                an.unknown.append((type(node).__name__, repr(node), repr(res), srt(before), srt(after)))
     if top:
         an.result = res
     return an if top else res
+
+
+def same_struct(a, b):
+    """Deep attribute identity of two query trees (plain Python comparison of __dict__s; not the library's ==).
+    Structurally identical queries behave identically, so the engine is not run again for them."""
+    from whoosh.query import qcore
+    if a is b:
+        return True
+    if type(a) is not type(b):
+        return False
+    if isinstance(a, qcore.Query):
+        da, db = getattr(a, "__dict__", {}), getattr(b, "__dict__", {})
+        if set(da) != set(db):
+            return False
+        return all(same_struct(da[k], db[k]) for k in da)
+    if isinstance(a, (list, tuple)):
+        return len(a) == len(b) and all(same_struct(x, y) for x, y in zip(a, b))
+    if isinstance(a, float) and a != a:
+        return b != b
+    try:
+        return bool(a == b)
+    except Exception:  # noqa
+        return False
 
 
 # ----------------------------------------------------------------------
 # the checks
 # ----------------------------------------------------------------------
 
-def shrink(q, still_fails, budget=60):
+def shrink(q, still_fails, budget=40):
     """Greedy structural minimisation: replace the tree by a child / drop n-ary children while the failure persists."""
-    from whoosh import query
     changed = True
     while changed and budget > 0:
         changed = False
         kids = node_kids(q) or (list(q.children()) if not is_null(q) else [])
         cands = list(kids)
-        if isinstance(q, _cls("compound","CompoundQuery")) and not isinstance(q, _cls("compound","BinaryQuery")) and len(q.subqueries) > 1:
+        if isinstance(q, _cls("compound", "CompoundQuery")) and not isinstance(q, _cls("compound", "BinaryQuery")) and len(q.subqueries) > 1:
             for i in range(len(q.subqueries)):
-                cands.append(rebuild(q, q.subqueries[:i] + q.subqueries[i + 1:]))
+                cands.append(rebuild(q, list(q.subqueries[:i]) + list(q.subqueries[i + 1:])))
         if node_kids(q):
             for i, k in enumerate(kids):
                 for kk in (node_kids(k) or []):
@@ -552,13 +575,25 @@ class Case(object):
     def __init__(self, ctx, built, searcher, wb):
         self.ctx = ctx
         self.built = built
+        self.live = built.live
         self.s = searcher
         self.r = searcher.reader()
         self.wb = wb
 
     def engine(self, q):
         s = self.s
+        self.ctx.count("c15.engine.runs")
         return set(s.stored_fields(dn)["id"] for dn in s.docs_for_query(q))
+
+    def sem(self, q):
+        """Evaluator of the local analysis: the independent model where it decides, else the real engine."""
+        r = try_sem(q, self.live)
+        if r is None:
+            try:
+                r = self.engine(q)
+            except Exception:  # noqa - no verdict from this evaluator
+                return None
+        return r
 
     def witness(self, q, name, **kw):
         w = dict(self.wb, query=repr(q), rewrite=name)
@@ -573,11 +608,15 @@ def srt(keys):
 REWRITES = ["with_boost", "replace_absent", "accept_id", "apply_id", "copy", "deepcopy", "qcopy", "pickle2", "pickleH"]
 
 
-def do_rewrite(name, q, rng_vals):
+def do_rewrite(name, q, vals, reader=None):
+    if name == "normalize":
+        return q.normalize()
+    if name == "simplify":
+        return q.simplify(reader)
     if name == "with_boost":
-        return q.with_boost(rng_vals["boost"])
+        return q.with_boost(vals["boost"])
     if name == "replace_absent":
-        return q.replace(rng_vals["field"], "zzzabsentold", "alfa")
+        return q.replace(vals["field"], "zzzabsentold", "alfa")
     if name == "accept_id":
         return q.accept(lambda x: x)
     if name == "apply_id":
@@ -595,118 +634,133 @@ def do_rewrite(name, q, rng_vals):
     raise KeyError(name)
 
 
+def expand_leaves(case, q, pop):
+    """simplify() = expansion of the multi-term leaves against the reader + normalize() of the compounds around them.
+    Returns the tree with every non-compound node replaced by its own simplify() (each judged strictly here) and the
+    compounds left un-normalised, or None when a leaf could not be simplified."""
+    ctx = case.ctx
+    if isinstance(q, _cls("compound", "CompoundQuery")) and q.subqueries:
+        kids = []
+        for c in node_kids(q):
+            k = expand_leaves(case, c, pop)
+            if k is None:
+                return None
+            kids.append(k)
+        return rebuild(q, kids)
+    ok, sq = ctx.guard("c15.simplify", case.witness(q, "simplify-leaf"), q.simplify, case.r)
+    if not ok:
+        return None
+    ctx.count("c15.simplify.leaf_checks")
+    if not same_struct(sq, q):
+        before, after = case.sem(q), case.sem(sq)
+        if before is not None and after is not None and before != after:
+            ctx.fail("c15.simplify", "leaf:%s" % type(q).__name__,
+                     case.witness(q, "simplify-leaf", rewritten=repr(sq), expected=srt(before), observed=srt(after)))
+    return sq
+
+
 def check_tree(case, rng, q, q2):
     """All rewrites of one tree. Returns (expected set or None, population)."""
     from whoosh import query
     ctx = case.ctx
-    live = case.built.live
-    trig = triggers(q)
-    pop = "B" if trig else "A"
+    live = case.live
+    pop = "B" if triggers(q) else "A"
     ctx.count("c15.pop%s.trees" % pop)
     snapshot = repr(q)
     exp = try_sem(q, live)
-    if exp is None:
-        ctx.count("c15.model.undecided")
-    else:
-        ctx.count("c15.model.decided")
+    ctx.count("c15.model.decided" if exp is not None else "c15.model.undecided")
+    vals = {"boost": rng.choice(BOOSTS), "field": rng.choice(["t", "t", "u", "k"])}
 
     ok, base = ctx.guard("c15.original", case.witness(q, "none"), case.engine, q)
     if not ok:
         ctx.count("c15.original.engine_error")
         return exp, pop
     if exp is not None and base != exp:
-        # matcher-level disagreement on the ORIGINAL (C01's subject); recorded, and the model side below still judges rewrites
+        # matcher-level disagreement on the ORIGINAL (C01's subject); recorded; the model side below still judges the rewrites
         ctx.fail("c15.original", "engine-vs-model:%s" % type(q).__name__, case.witness(q, "none", expected=srt(exp), observed=srt(base)))
     want = exp if exp is not None else base
 
+    def report_known(tree, name, rq, analysis):
+        for mechs, node, res in analysis.known:
+            for m in mechs:
+                ctx.fail("c15.normalize", "known:" + m, case.witness(tree, name, step_input=node, step_output=res, rewritten=repr(rq)))
+
     def judge(name, rq, tree, tpop, want_eng, want_model, analysis=None):
-        """Compare the engine result of the rewritten query rq with both sides of the oracle. `tree` is the un-normalised tree
-        whose meaning rq must have (q itself, or And([q,q2]) ... for the operators); `analysis` the local analysis of tree."""
+        """Compare the engine result of the rewritten query rq with both sides of the oracle. `tree` is the tree whose meaning rq
+        must have (q itself, or And([q,q2]) ... for the operators); `analysis` the local normalize analysis that produced rq."""
         ctx.count("c15.rw.%s" % name)
         ctx.count("c15.pop%s.checks" % tpop)
-        ok, got = ctx.guard("c15." + name, case.witness(tree, name, rewritten=repr(rq)), case.engine, rq)
-        if not ok:
-            return False
+        if same_struct(rq, tree):
+            ctx.count("c15.rw.structurally_identical")
+            got = want_eng
+        else:
+            ok, got = ctx.guard("c15." + name, case.witness(tree, name, rewritten=repr(rq)), case.engine, rq)
+            if not ok:
+                return False
         bad_e = got != want_eng
         bad_m = want_model is not None and got != want_model
         if not bad_e and not bad_m:
             return True
-        if tpop == "B" and analysis is not None and analysis.known and not analysis.unknown:
-            # second oracle: every deviating normalize step is exactly a listed mechanism, the library's result is the
-            # composition of those steps, and the engine returns the model semantics of that normal form
-            nsem = try_sem(analysis.result, live)
-            if nsem is not None and got == nsem:
-                ctx.count("c15.popB.known")
-                for mechs, node, res in analysis.known:
-                    for m in mechs:
-                        ctx.fail("c15.normalize", "known:" + m, case.witness(tree, name, step_input=node, step_output=res, rewritten=repr(rq),
-                                                                            expected=srt(want_model if want_model is not None else want_eng), observed=srt(got)))
-                return True
+        if tpop == "B" and analysis is not None and analysis.known and not analysis.unknown and same_struct(analysis.result, rq):
+            # second oracle: every deviating normalize step is exactly a listed mechanism (verified step by step under the
+            # evaluator) and the rewritten query is the composition of those steps
+            ctx.count("c15.popB.explained_by_listed")
+            report_known(tree, name, rq, analysis)
+            return True
         side = "engine+model" if bad_e and bad_m else ("engine" if bad_e else "model")
         mq = tree
-        if tree is q and name in REWRITES + ["normalize", "simplify"]:
-            def still(c):
-                if name == "normalize":
-                    rc = c.normalize()
-                elif name == "simplify":
-                    rc = c.simplify(case.r)
-                else:
-                    rc = do_rewrite(name, c, vals)
-                return case.engine(rc) != case.engine(c)
-            if bad_e:
-                mq = shrink(q, still)
+        if tree is q and bad_e and name in REWRITES + ["normalize", "simplify"]:
+            mq = shrink(q, lambda c: case.engine(do_rewrite(name, c, vals, case.r)) != case.engine(c))
         ctx.fail("c15." + name, "%s:%s" % (side, type(mq).__name__),
                  case.witness(tree, name, rewritten=repr(rq), minimal=repr(mq), population=tpop,
                               expected_engine=srt(want_eng), expected_model=None if want_model is None else srt(want_model),
                               observed=srt(got)))
         return False
 
-    # ---- normalize: never raises, idempotent, same documents; every local step equivalent under the model
-    w = case.witness(q, "normalize")
-    ok, nq = ctx.guard("c15.normalize", w, q.normalize)
-    an = None
+    def steps_of(tree, name, tpop, produced):
+        """Local analysis of normalize() over `tree`; reports unexplained steps; returns the Analysis if it composes to `produced`."""
+        ok, an = ctx.guard("c15." + name, case.witness(tree, name + "-steps"), analyze, tree, case)
+        if not ok:
+            return None
+        ctx.count("c15.steps", an.steps)
+        ctx.count("c15.steps.undecided", an.undecided)
+        for cls, node, res, b, a in an.unknown:
+            ctx.fail("c15.normalize-step", cls, case.witness(tree, name + "-step", step_input=node, step_output=res, population=tpop,
+                                                             expected=b, observed=a))
+        if an.known:
+            ctx.count("c15.steps.listed", len(an.known))
+            if tpop == "A":
+                # the population predicate must over-approximate the listed mechanisms: a harness error if it does not
+                raise AssertionError("population A reached a listed mechanism: %r %r" % (tree, an.known))
+            report_known(tree, name, produced, an)
+        if not same_struct(an.result, produced):
+            ctx.count("c15.steps.compose_mismatch")
+            return None
+        return an
+
+    # ---- normalize: never raises, idempotent, same documents; every local step equivalent
+    ok, nq = ctx.guard("c15.normalize", case.witness(q, "normalize"), q.normalize)
     if ok:
-        ok2, an = ctx.guard("c15.normalize", case.witness(q, "normalize-steps"), analyze, q, live)
-        if not ok2:
-            an = None
-        else:
-            ctx.count("c15.steps", an.steps)
-            ctx.count("c15.steps.undecided", an.undecided)
-            for cls, node, res, b, a in an.unknown:
-                ctx.fail("c15.normalize-step", "%s" % cls, case.witness(q, "normalize-step", step_input=node, step_output=res, population=pop,
-                                                                        expected=b, observed=a))
-            if pop == "A" and an.known:
-                # the population predicate must over-approximate the listed mechanisms: harness error if it does not
-                raise AssertionError("population A reached a listed mechanism: %r %r" % (q, an.known))
-            for mechs, node, res in an.known:
-                ctx.count("c15.step.known")
-                for m in mechs:
-                    ctx.fail("c15.normalize", "known:" + m, case.witness(q, "normalize-step", step_input=node, step_output=res))
-            if repr(an.result) != repr(nq):
-                ctx.count("c15.steps.compose_mismatch")
-                an_top = None
-            else:
-                an_top = an
-        judge("normalize", nq, q, pop, base, exp, an if an is not None and repr(an.result) == repr(nq) else None)
+        an = steps_of(q, "normalize", pop, nq)
+        judge("normalize", nq, q, pop, base, exp, an)
         ok3, nnq = ctx.guard("c15.normalize2", case.witness(q, "normalize(normalize)", rewritten=repr(nq)), nq.normalize)
         if ok3:
             ctx.count("c15.idempotent.evals")
-            same = (nnq == nq) and (nq == nnq)
-            if not same or repr(nnq) != repr(nq):
-                if not same:
+            if same_struct(nnq, nq):
+                ctx.count("c15.idempotent.identical")
+            else:
+                ok4, same = ctx.guard("c15.normalize2", case.witness(q, "normalize(normalize)==", once=repr(nq), twice=repr(nnq)),
+                                      lambda: bool(nnq == nq) and bool(nq == nnq))
+                if ok4 and not same:
                     ctx.fail("c15.normalize2", "not-idempotent:%s" % type(nq).__name__,
                              case.witness(q, "normalize(normalize)", once=repr(nq), twice=repr(nnq)))
-                else:
-                    ctx.count("c15.idempotent.repr_differs")
-            ok4, got2 = ctx.guard("c15.normalize2", case.witness(q, "normalize(normalize)", rewritten=repr(nnq)), case.engine, nnq)
-            if ok4:
+                ok4, got2 = ctx.guard("c15.normalize2", case.witness(q, "normalize(normalize)", rewritten=repr(nnq)), case.engine, nnq)
                 ok5, got1 = ctx.guard("c15.normalize2", case.witness(q, "normalize", rewritten=repr(nq)), case.engine, nq)
-                if ok5 and got1 != got2:
+                if ok4 and ok5 and got1 != got2:
                     ctx.fail("c15.normalize2", "docs-differ:%s" % type(nq).__name__,
                              case.witness(q, "normalize(normalize)", once=repr(nq), twice=repr(nnq), observed=srt(got2), expected=srt(got1)))
 
     # ---- plain rewrites
-    vals = {"boost": rng.choice(BOOSTS), "field": rng.choice(["t", "t", "u", "k"])}
     copies = []
     for name in REWRITES:
         ok, rq = ctx.guard("c15." + name, case.witness(q, name), do_rewrite, name, q, vals)
@@ -718,8 +772,8 @@ def check_tree(case, rng, q, q2):
         judge(name, rq, q, pop, base, exp)
         if name in ("copy", "deepcopy", "qcopy", "pickle2", "pickleH"):
             copies.append((name, rq))
-        if name == "with_boost" and not is_null(q) and hasattr(rq, "boost") and not isinstance(rq, _cls("compound","BinaryQuery")) \
-                and not isinstance(rq, _cls("wrappers","WrappingQuery")) and type(rq) is type(q):
+        if name == "with_boost" and type(rq) is type(q) and "boost" in getattr(q, "__dict__", {}) \
+                and not isinstance(rq, (_cls("compound", "BinaryQuery"), _cls("wrappers", "WrappingQuery"))):
             ctx.count("c15.with_boost.value_checks")
             if rq.boost != vals["boost"]:
                 ctx.fail("c15.with_boost", "boost-not-set:%s" % type(q).__name__, case.witness(q, name, rewritten=repr(rq), boost=vals["boost"]))
@@ -752,23 +806,18 @@ def check_tree(case, rng, q, q2):
         if not ok:
             continue
         texp = try_sem(tree, live)
-        tan = None
-        if tpop == "B":
-            ok, tan = ctx.guard("c15." + opname, case.witness(tree, opname + "-steps"), analyze, tree, live)
-            if not ok or repr(tan.result) != repr(rq):
-                tan = None
+        tan = steps_of(tree, opname, tpop, rq) if tpop == "B" else None
         judge(opname, rq, tree, tpop, teng, texp, tan)
 
-    # ---- simplify
+    # ---- simplify = leaf expansion (strict, per leaf) + normalize of the compounds (two-level oracle)
     ok, sq = ctx.guard("c15.simplify", case.witness(q, "simplify"), q.simplify, case.r)
     if ok:
-        san = None
-        if pop == "B" and an is not None and an.known and not an.unknown:
-            # simplify() of a compound ends in normalize(): the same listed steps explain it iff it returns what normalize returns
-            ok, gs = ctx.guard("c15.simplify", case.witness(q, "simplify", rewritten=repr(sq)), case.engine, sq)
-            if ok and try_sem(an.result, live) == gs:
-                san = an
-        judge("simplify", sq, q, pop, base, exp, san)
+        xq = expand_leaves(case, q, pop)
+        san, spop = None, pop
+        if xq is not None:
+            spop = "B" if (pop == "B" or triggers(xq)) else "A"
+            san = steps_of(xq, "simplify", spop, sq)
+        judge("simplify", sq, q, spop, base, exp, san)
     if repr(q) != snapshot:
         ctx.fail("c15.nomutate", "late", case.witness(q, "any", before=snapshot, after=repr(q)))
 
@@ -835,8 +884,7 @@ def run(ctx):
                 case = Case(ctx, built, s, wb)
                 for _ in range(14):
                     mode = rng.choice(["A1", "A1", "A1", "A2", "B", "B"])
-                    g = Gen(rng, mode)
-                    q = g.tree(rng.choice([1, 2, 2, 3, 3, 4]))
+                    q = Gen(rng, mode).tree(rng.choice([1, 2, 2, 3, 3, 4]))
                     q2 = Gen(rng, mode).tree(rng.choice([0, 1, 2]))
                     exp, pop = check_tree(case, rng, q, q2)
                     nontrivial = exp is not None and 0 < len(exp) < len(built.live)
